@@ -65,7 +65,15 @@ CHECKS["C18"] = (
     "The rank-0 override (F1) is excluded by its exact region and replayed.",
     _NOTE + " The GenBank-record-permutation and gff3.parser clauses are outside the claim (modules not importable here).",
     "DESIGN.md §3 C18")
-for _p in ["C03", "C04", "C07", "C08", "C09", "C10", "C11", "C13", "C17",
+CHECKS["C03"] = (
+    "bounded symbolic execution (CrossHair): location coordinates are symbolic, realised at the string-slicing boundary; the solver closes the finite coordinate space over tagged (all-letters-distinct) parent sequences",
+    "On tagged parent sequences of every nucleotide alphabet (all 32 IUPAC letters/cases and the gap, rotated over four sequences) "
+    "EVERY 1-block and 2-block location (sorted, adjacent, empty, overlapping) within the sequence on both strands is extracted and "
+    "compared base by base with the coordinate map and an independent IUPAC complement; strand reversal, every two-way split, every "
+    "slice bound pair in [-n-1,n+1] of located sequences, reverse_complement and append (acceptance and recorded location) are covered.",
+    _NOTE + " Coordinates are realised (str slicing is a C boundary): the claim is exhaustive over the stated finite spaces, not over unbounded integers.",
+    "DESIGN.md §3 C03")
+for _p in ["C04", "C07", "C08", "C09", "C10", "C11", "C13", "C17",
            "C19", "C20"]:
     NOT_APPLICABLE[_p] = "check not built yet (build in progress; see DESIGN.md §3 for the planned solver-based check)"
 NOT_APPLICABLE["C12"] = ("GenBank writer cannot emit a feature on the installed Biopython (SeqFeature(strand=) TypeError), the "
